@@ -330,6 +330,17 @@ func main() {
 			}
 			return &rtp.Packet{Header: rtp.Header{Version: 2, SequenceNumber: seq}, Payload: pl}
 		}, maxNALUs+2, maxAU+4096)
+		// several completely reassembled large NAL units under one timestamp (see harness/h264)
+		Format.HostileStream(ctx, "large-fu-nalus-in-one-access-unit", ctx.Budget(1500, 20000), h26x.LargeUnits(ctx.Rng, 6, func(s, e bool) []byte {
+			h := byte(0x13)
+			if s {
+				h |= 0x80
+			}
+			if e {
+				h |= 0x40
+			}
+			return []byte{0x62, 0x01, h}
+		}), 0, 2*maxAU+65536+4096, maxAU)
 		h26x.FuzzPTSEqualsDTS(ctx, "H265", ctx.Budget(3000, 200000), hostile, ptsEq)
 	}
 }
